@@ -137,6 +137,37 @@ def run(tier):
                           "ephs": [B(e["pub"]) for e in evs if e["ev"] == "gen"], "necc": 1, "key_before": B(kb), "key_after": B(fs.session_key)})
         finally:
             _random.setstate(st0)
+        # (a3) several threads write BEC2 files with ECC blocks at the same time (separate file and encryptor objects): each file's
+        # ECC block carries ITS ephemeral point and unwraps, under the recipient's private key, to ITS session key
+        from .. import errpaths as E
+        tplans = [G.Plan(r, rcpts, ["ecc", "update"], explicit_key=True, use_default_rcpt=False) for _ in range(8)]
+        tfiles = [Bec2File(G.gen_content(r), pl.blocks, pl.key) for pl in tplans]
+        touts = [None] * len(tplans)
+
+        def _mkw(i):
+            def work():
+                s_ = io.StringIO()
+                tfiles[i].write_file(s_, tplans[i].encs_w)
+                touts[i] = s_.getvalue()
+            return work
+        for lo in (0, 4):
+            E.run_threads([_mkw(i) for i in range(lo, lo + 4)])
+        seams.take()
+        for pl, fobj, text in zip(tplans, tfiles, touts):
+            if not text:
+                rec.add({"op": "bec2.write", "key": B(fobj.session_key), "blocks": [], "encs": C.enc_specs(pl), "comps": [], "comments": [], "text": [], "threaded": 1})
+                continue
+            try:
+                hb = B2.split_header(B2.to_binary_of_text(text))
+            except Exception:                                # noqa: BLE001
+                hb = []
+            evs_ = []
+            for (tg, raw_), m in zip(hb, pl.meta):
+                if m["tag"] == 3:
+                    evs_ += [{"ev": "gen", "pub": bytes(raw_[2:66])}, {"ev": "dh", "peer_der": bytes(m["pub_der"])}]
+            pj = L.proj_file(fobj.bf3file)
+            rec.add({"op": "bec2.write", "key": B(fobj.session_key), "blocks": [G.block_rec(m, evs_, orc) for m in pl.meta], "encs": C.enc_specs(pl),
+                     "comps": pj["comps"], "comments": pj["comments"], "text": L.chars(text), "threaded": 1})
         # (b') ONE firmware package (with a session-key encrypted component of 64 KiB) delivered as two BEC2 files with two
         # session keys: in each file the key the blocks wrap is the key that authenticates the directory AND encrypts the component
         pkg = Bf3File({}, [L.mk_comp({0xC3: b"\x03", 0xC2: b"\x02"}, bytes((j * 89 + j // 253) % 256 for j in range(65536 + 16)), 65536 + 16, True)])
